@@ -228,9 +228,44 @@ fn serde_deserialize() {
 // Arbitrary
 // ---------------------------------------------------------------------------------------
 
-// @harness name=arbitrary_delegates props=C19 class=B bound="Unstructured over <= 3 symbolic bytes; core validator replaced by an ASCII-only validator" unwind=8 features=serde,arbitrary tier=quick fn=Arbitrary covers=arb.ok timeout=1800
+// The text a LeanString is built with is observed through the contracts of what builds it:
+// `Repr::from_str` / `push_str` / `with_capacity` are replaced by stubs that keep the abstract
+// text in a ghost buffer (so that a detour through another constructor is cheap to see).
+static mut G_BUF: [u8; 16] = [0; 16];
+static mut G_LEN: usize = 0;
+fn g_append(s: &str) {
+    let b = s.as_bytes();
+    let mut i = 0;
+    while i < b.len() {
+        unsafe {
+            if G_LEN < 16 {
+                G_BUF[G_LEN] = b[i];
+            }
+            G_LEN += 1;
+        }
+        i += 1;
+    }
+}
+fn g_push_str(_r: &mut Repr, s: &str) -> Result<(), ReserveError> {
+    g_append(s);
+    Ok(())
+}
+fn g_from_str(s: &str) -> Result<Repr, ReserveError> {
+    unsafe { G_LEN = 0 };
+    g_append(s);
+    Ok(Repr::new())
+}
+fn g_with_capacity(_n: usize) -> Result<Repr, ReserveError> {
+    unsafe { G_LEN = 0 };
+    Ok(Repr::new())
+}
+
+// @harness name=arbitrary_delegates props=C19 class=B bound="Unstructured over <= 3 symbolic bytes; core validator replaced by an ASCII-only validator; from_str/push_str/with_capacity under contract (ghost text)" unwind=8 features=serde,arbitrary tier=quick fn=Arbitrary covers=arb.ok timeout=1800
 #[kani::proof]
 #[kani::stub(core::str::from_utf8, stub_from_utf8_ascii)]
+#[kani::stub(crate::repr::Repr::from_str, g_from_str)]
+#[kani::stub(crate::repr::Repr::push_str, g_push_str)]
+#[kani::stub(crate::repr::Repr::with_capacity, g_with_capacity)]
 fn arbitrary_delegates() {
     use arbitrary::{Arbitrary, Unstructured};
     arm_covers();
@@ -246,20 +281,17 @@ fn arbitrary_delegates() {
         (LeanString::arbitrary(&mut u1), <&str>::arbitrary(&mut u2))
     };
     obl!(a.is_ok() == b.is_ok(), "arb.ok_iff_str_arbitrary_ok", "C19");
-    if let (Ok(a), Ok(b)) = (&a, &b) {
+    if let (Ok(_), Ok(b)) = (&a, &b) {
         cov!(true, "arb.ok");
-        let same = a.len() == b.len() && {
-            let (x, y) = (a.as_bytes(), b.as_bytes());
-            let mut ok = true;
-            let mut i = 0;
-            while i < 3 {
-                if i < x.len() && i < y.len() && x[i] != y[i] {
-                    ok = false;
-                }
-                i += 1;
+        let y = b.as_bytes();
+        let mut same = unsafe { G_LEN } == y.len();
+        let mut i = 0;
+        while i < 3 {
+            if i < y.len() && unsafe { G_BUF[i] } != y[i] {
+                same = false;
             }
-            ok
-        };
+            i += 1;
+        }
         obl!(same, "arb.text_is_what_str_arbitrary_yields", "C19");
     }
     obl!(LeanString::size_hint(0) == <&str>::size_hint(0), "arb.size_hint_is_strs", "C19");
